@@ -12,6 +12,7 @@ usage: tools/benign_rename.py [reformat|suffix|scramble] [PID ...]
   yoda      operands of every == / != comparison swapped
   augassign every `x = x <op> e` rewritten as `x <op>= e`
   emptyctor every empty `[]` / `{}` literal on the right of an assignment rewritten as list() / dict()
+  alias     every statement `self.a[.b].m(args)` / `x = self.a[.b].m(args)` rewritten as `_r = self.a[.b]` followed by `_r.m(args)`
 Locals are names stored in the function body that are not parameters, not global/nonlocal, and not read by a nested function.
 The variant is written to a scratch directory (removed afterwards), every check is run with --repo <scratch>, and every
 VIOLATION / ANALYSIS-ERROR is printed: each one is a false alarm (or a broken anchor) of the checker, since the variant behaves
@@ -146,7 +147,32 @@ class EmptyCtor(ast.NodeTransformer):
         return node
 
 
-TRANSFORMERS = {"invert": Invert, "guard": Guard, "yoda": Yoda, "augassign": Aug, "emptyctor": EmptyCtor}
+class Alias(ast.NodeTransformer):
+    """receiver of a method call bound to a temporary first (evaluation order is unchanged: the receiver is evaluated before the arguments)"""
+    def _split(self, st, call):
+        f = call.func
+        if isinstance(f, ast.Attribute) and isinstance(f.value, ast.Attribute):
+            root = f.value
+            while isinstance(root, ast.Attribute):
+                root = root.value
+            if isinstance(root, ast.Name) and root.id == "self":
+                tmp = ast.Assign(targets=[ast.Name(id="_r", ctx=ast.Store())], value=f.value)
+                call.func = ast.Attribute(value=ast.Name(id="_r", ctx=ast.Load()), attr=f.attr, ctx=ast.Load())
+                return [tmp, st]
+        return st
+
+    def visit_Expr(self, node):
+        if isinstance(node.value, ast.Call):
+            return self._split(node, node.value)
+        return node
+
+    def visit_Assign(self, node):
+        if isinstance(node.value, ast.Call) and len(node.targets) == 1:
+            return self._split(node, node.value)
+        return node
+
+
+TRANSFORMERS = {"alias": Alias, "invert": Invert, "guard": Guard, "yoda": Yoda, "augassign": Aug, "emptyctor": EmptyCtor}
 
 
 def transform(src: str) -> str:
